@@ -1,0 +1,44 @@
+//go:build verif
+
+// Contracts for the verif build tag: comment-only, read by /verif/engine (govc).
+package blocklist
+
+//@ # ---- C18: a name matches a set iff the name itself or one of its parent suffixes is a key
+//@ # dotBefore(name, off): the suffix name[off:] starts right after a '.' octet
+//@ pred dotBefore(name string, off int) := 0 < off && off < len(name) && name[off-1] == '.'
+//@
+//@ # The property's notion of "parent domain": a suffix starting after a LABEL-SEPARATING dot, i.e. a '.' that is
+//@ # not escaped (preceded by an even number of backslashes).
+//@ recspec bsRun(name string, i int) int := ite(i < 0 || i >= len(name) || name[i] != 92, 0, 1 + bsRun(name, i - 1))
+//@ pred labelStart(name string, off int) := dotBefore(name, off) && !(bsRun(name, off - 2) % 2 == 1)
+//@ pred parentMatch(name string, m map[string]bool) := m[name] || exists off int :: {name[off:len(name)]} labelStart(name, off) && m[name[off:len(name)]]
+//@
+//@ func escapedAt
+//@   requires 0 <= i && i <= len(name)
+//@   modifies nothing
+//@   ensures result == (bsRun(name, i - 1) % 2 == 1)
+//@   loop 1 invariant -1 <= j && j <= i - 1 && n == i - 1 - j
+//@   loop 1 invariant n + bsRun(name, j) == bsRun(name, i - 1)
+//@   loop 1 decreases j + 1
+//@
+//@ func matchHierarchy
+//@   modifies nothing
+//@   ensures result ==> parentMatch(name, m)
+//@   ensures parentMatch(name, m) ==> result
+//@   loop 1 invariant 0 <= offset && offset <= len(name)
+//@   loop 1 invariant forall off int :: {name[off:len(name)]} labelStart(name, off) && off <= offset ==> !m[name[off:len(name)]]
+//@   loop 1 invariant !m[name]
+//@   loop 1 decreases len(name) - offset
+//@
+//@ # ---- C18: a name is blocked exactly when it or one of its parent domains is listed (a "*.x" entry covers only
+//@ # names strictly below x), and the whitelist — matched over the same hierarchy — wins over every block
+//@ pred blockedName(b *BlockList, k string) := !parentMatch(k, b.w) && (b.m[k] || exists off int :: {k[off:len(k)]} labelStart(k, off) && (b.m[k[off:len(k)]] || b.wild[k[off:len(k)]]))
+//@
+//@ func (*BlockList).Exists
+//@   requires b != nil
+//@   modifies nothing
+//@   ensures result ==> blockedName(b, canon(key))
+//@   ensures blockedName(b, canon(key)) ==> result
+//@   loop 1 invariant 0 <= offset && offset <= len(key) && key == canon(entry_key) && !parentMatch(key, b.w) && !b.m[key]
+//@   loop 1 invariant forall off int :: {key[off:len(key)]} labelStart(key, off) && off <= offset ==> !b.m[key[off:len(key)]] && !b.wild[key[off:len(key)]]
+//@   loop 1 decreases len(key) - offset
